@@ -295,7 +295,9 @@ impl Xot {
     /// assert!(xot.is_removed(text));
     /// ```
     pub fn is_removed(&self, node: Node) -> bool {
-        self.arena()[node.get()].is_removed()
+        // compare the stamp in the handle with the stamp in the arena slot, so that
+        // a handle to a removed node stays removed when its slot is reused
+        node.get().is_removed(self.arena())
     }
 
     /// Get parent node.
@@ -949,7 +951,10 @@ impl Xot {
     /// If that id does not exist, returns [`None`].
     pub fn xml_id_node(&self, document_node: Node, value: &str) -> Option<Node> {
         let value_nodes = self.id_nodes_map.get(&document_node.get())?;
-        value_nodes.get(value).map(|node_id| Node::new(*node_id))
+        value_nodes
+            .get(value)
+            .filter(|node_id| !node_id.is_removed(self.arena()))
+            .map(|node_id| Node::new(*node_id))
     }
 }
 
